@@ -137,3 +137,30 @@ Definition file_of_lists (nsub nsblk npol nchan nstot nbits state df zero : Z)
 
 Definition res_enc (r : res (list row)) : Z * list row :=
   match r with ROk d => (0, d) | RErr PValueError => (1, []) | RErr PIndexError => (2, []) | RErr PUnbound => (3, []) end.
+
+(** ** optional arguments and optional cards (all arithmetic from Gen.C18Pfits) *)
+(** read_plan with nsamps left to its default (None) *)
+Definition pf_run_plan_default (F : pfile) (gulp start skipback : Z) : ptr :=
+  pf_run_plan F gulp start (pl_default_nsamps (p_nstot F) start) skipback.
+
+(** a file from its cards: NSTOT and ZERO_OFF may be absent (None), POL_TYPE is a spelling *)
+Definition file_of_cards (nsub nsblk npol nchan : Z) (nstot_card : option Z) (nbits : Z) (pol_card : Coq.Strings.String.string)
+    (df : Z) (zero_card : option Z) (raw : list (list (list (list Z)))) (scl offs wts : list (list Z)) : pfile :=
+  file_of_lists nsub nsblk npol nchan (hdr_nstot nstot_card nsblk nsub) nbits
+    (match poln_state_of pol_card npol with Some s => s | None => -1 end) df (hdr_zero_off zero_card) raw scl offs wts.
+
+(** ** fractional ZERO_OFF / DAT_SCL / DAT_OFFS / DAT_WTS: the decode over the rationals *)
+Require Import QArith.
+Open Scope Z_scope.
+Record qvals := mkqv { q_zero : Q; q_scl : Z -> Z -> Q; q_offs : Z -> Z -> Q; q_wts : Z -> Z -> Q }.   (* row, index in the vector *)
+Definition sub_elem_q (F : pfile) (V : qvals) (isub t p c : Z) : Q :=
+  sub_value_q (inject_Z (p_raw F isub t p c)) (q_zero V)
+              (q_scl V isub (scl_index (p_npol F) (p_nchan F) p c)) (q_offs V isub (scl_index (p_npol F) (p_nchan F) p c))
+              (q_wts V isub (wts_index (p_nchan F) c)).
+Definition pol_elem_q (F : pfile) (V : qvals) (csc : Q) (isub t c : Z) : option Q :=
+  pol_value_q (p_state F) csc (fun p => sub_elem_q F V isub t p c).
+(** the integer file that stands for a fractional one: samples times dz, numerators of ZERO_OFF (over dz), DAT_SCL (over ds),
+    DAT_OFFS (over dz*ds) and DAT_WTS (over dw); it delivers dz*ds*dw times the fractional file's values *)
+Definition scaled_file (F : pfile) (dz zn : Z) (sn on wn : Z -> Z -> Z) : pfile :=
+  mkpf (p_nsub F) (p_nsblk F) (p_npol F) (p_nchan F) (p_nstot F) (p_nbits F) (p_state F) (p_df F) zn (p_csc F)
+       (fun i t p c => p_raw F i t p c * dz) sn on wn.
